@@ -1097,9 +1097,37 @@ fn main() {
     let leg = |name: &str| legs.as_ref().is_none_or(|l| l.contains(name));
     let quick = args.tier == vcore::Tier::Quick;
 
+    // ---- regression inputs: canonical inputs of findings that are no longer open (fixed in /repo) are judged like
+    // any other case; a failure is a violation
+    {
+        let open_replays: BTreeSet<PathBuf> = cx.out.known.open.iter().map(|e| e.replay.clone()).collect();
+        let dir = vcore::verif_root().join("known").join("C15");
+        let mut files: Vec<PathBuf> = std::fs::read_dir(&dir).map(|rd| rd.flatten().map(|e| e.path()).collect()).unwrap_or_default();
+        files.sort();
+        let mut n = 0u64;
+        for f in files.iter().filter(|f| f.extension().is_some_and(|x| x == "json") && !open_replays.contains(*f)) {
+            if let Some((proj, exp, _)) = load_replay(f) {
+                let v = evaluate(&farm, &cache, &proj, &exp);
+                n += 1;
+                cx.ev.class("regression-input");
+                cx.ev.case(Some(util::hash_str(&format!("{:?}", proj.files))));
+                if let Some(w) = &v.inconclusive {
+                    cx.out.inconclusive(w);
+                }
+                for fl in &v.fails {
+                    if !cx.out.is_known(&fl.key) {
+                        let body = replay_body(&proj, &exp, fl);
+                        cx.out.violation(&mut cx.ev, &fl.key, "json", &body, &format!("regression input {}: {}", f.display(), fl.what));
+                    }
+                }
+            }
+        }
+        cx.ev.set("regression_inputs_replayed", json!(n));
+    }
+
     // ---- sweep A: every expression trigger in every context, entry module and dependency module.
-    // While a dependency-module finding is open every dependency-module cell of that feature fails the same way;
-    // the quick tier then evaluates every 4th of them (the thorough tier all).
+    // The quick tier runs every entry-module cell and every 2nd dependency-module cell (every 4th while a
+    // dependency-module finding is open: they all fail the same way then); the thorough tier runs all.
     let mut cells = Vec::new();
     let mut thinned = 0u64;
     for (n, (t, c)) in expr_cells().into_iter().enumerate() {
@@ -1108,15 +1136,24 @@ fn main() {
         }
         for in_dep in [false, true] {
             let p = Part { kind: PartKind::Expr { trig: t, ctx: c }, in_dep };
-            if in_dep && quick && n % 4 != 0 && cx.out.is_known(&format!("undeclared:{}", part_tail(&p).unwrap())) {
-                cx.ev.exclude(&format!("undeclared:{}", part_tail(&p).unwrap()));
+            let known_cell = cx.out.is_known(&format!("undeclared:{}", part_tail(&p).unwrap()));
+            // sleep_ms / yield_now / spawn_blocking go through the same scanner arms as sleep: the quick tier runs
+            // them in every 3rd context only
+            if quick && t >= 2 && (c + t) % 3 != 0 {
+                thinned += 1;
+                continue;
+            }
+            if in_dep && quick && ((known_cell && n % 4 != 0) || n % 2 != 0) {
+                if known_cell {
+                    cx.ev.exclude(&format!("undeclared:{}", part_tail(&p).unwrap()));
+                }
                 thinned += 1;
                 continue;
             }
             cells.push(simple_case("app_1", vec![p], vec![]));
         }
     }
-    cx.ev.set("quick_tier_dep_cells_not_run_because_known", json!(thinned));
+    cx.ev.set("quick_tier_cells_left_to_thorough", json!(thinned));
     let cell_verdicts = cx.eval_batch("sweep:trigger-x-context-x-placement", &cells);
     // per-cell table for the evidence
     let mut table: BTreeMap<String, String> = BTreeMap::new();
@@ -1164,6 +1201,10 @@ fn main() {
                     cx.ev.exclude("undeclared:dep-module:rust-import");
                     continue;
                 }
+                // quick tier: three of the eight forms per crate, rotating with the crate (every form meets >= 7 crates)
+                if quick && (f + IMPORT_FORMS.len() - ci % IMPORT_FORMS.len()) % IMPORT_FORMS.len() > 2 {
+                    continue;
+                }
                 imps.push(simple_case("imp_app", vec![], vec![Imp { krate: c.to_string(), form: f, in_dep }]));
             }
         }
@@ -1173,7 +1214,7 @@ fn main() {
     phases.insert("through_sweep_C_s".into(), t0.elapsed().as_secs_f64());
     // ---- sweep D: unknown crate names
     let mut runner = vcore::gen::runner(args.subseed(151));
-    let n_unknown = if leg("D") { args.tier.pick(40usize, 1500usize) } else { 0 };
+    let n_unknown = if leg("D") { args.tier.pick(30usize, 1500usize) } else { 0 };
     let unk_strat = (unknown_crate_strategy(), 0..IMPORT_FORMS.len(), any::<bool>(), prop::option::of(prop::sample::select(KNOWN_GOOD.to_vec())));
     let unk_trees = vcore::gen::batch(&unk_strat, &mut runner, n_unknown);
     let unk_cases: Vec<Case> = unk_trees
@@ -1199,7 +1240,7 @@ fn main() {
 
     phases.insert("through_sweep_D_s".into(), t0.elapsed().as_secs_f64());
     // ---- sweep E: project names
-    let n_names = if leg("E") { args.tier.pick(60usize, 3000usize) } else { 0 };
+    let n_names = if leg("E") { args.tier.pick(40usize, 3000usize) } else { 0 };
     let name_trees = vcore::gen::batch(&stem_strategy(), &mut runner, n_names);
     let json_part = Part { kind: PartKind::Expr { trig: 0, ctx: 0 }, in_dep: false };
     let name_cases: Vec<Case> = name_trees
@@ -1267,7 +1308,7 @@ fn main() {
     });
     cx.ev.set("random_leg_cells_excluded_by_known_finding", json!(excluded_cells));
     cx.ev.set("random_leg_cells_available", json!(allowed_parts.len()));
-    let n_random = if leg("R") { args.tier.pick(150usize, 12_000usize) } else { 0 };
+    let n_random = if leg("R") { args.tier.pick(100usize, 12_000usize) } else { 0 };
     let forms: Vec<usize> = (0..IMPORT_FORMS.len()).collect();
     let strat = random_case(allowed_parts, !dep_imports_known, forms);
     let mut trees = vcore::gen::batch(&strat, &mut runner, n_random);
@@ -1331,8 +1372,8 @@ fn main() {
     }
     let bprojects: Vec<(Project, Expect)> = build_cases.iter().map(|(c, _)| render(c)).collect();
     let plist: Vec<Project> = bprojects.iter().map(|(p, _)| p.clone()).collect();
-    // two workers only: their private target dirs stay warm for the few crates the sample uses
-    let bfarm = Farm::with_workers("c15b", args.tier.pick(2, farm.workers));
+    // (the sample uses few crates: regex, anyhow, log, serde, serde_json, tokio — each worker target dir compiles them once)
+    let bfarm = Farm::with_workers("c15b", args.tier.pick(farm.workers.min(5), farm.workers));
     let bouts = bfarm.run_many(&plist, Mode::Build);
     let mut built_ok = 0u64;
     for (((case, label), (proj, exp)), o) in build_cases.iter().zip(bprojects.iter()).zip(bouts.iter()) {
